@@ -213,6 +213,11 @@ def _c13(chk, tier):
     found = validate_records(chk, "TracePipe.tla", out, "V_C13", "pipe")
     report(chk, found, "pipe", args)
     rel_pass(chk, "pipe", args, "TracePipe.tla", "V_C13")
+    out2 = os.path.join(WORK, "probe_C13_sibling.ndjson")
+    recs2 = run_probe("pipe_sibling", [], out2)
+    count(chk, recs2, lambda r: (r["kind"], r["status"], json.dumps(r["r"], sort_keys=True)))
+    found = validate_records(chk, "TracePipe.tla", out2, "V_C13", "pipe_sibling")
+    report(chk, found, "pipe_sibling", [])
     nb = {r["kind"]: r["r"].get("nonblock") for r in recs
           if r["e"] == "pipe" and r["status"] == "exited:0" and "nonblock" in r["r"]}
     if len(nb) == 4:
@@ -270,6 +275,14 @@ def c12(chk, tier):
     found = validate_records(chk, "TraceSignals.tla", out, "V_C12", "signals")
     report(chk, found, "signals", args)
     rel_pass(chk, "signals", args, "TraceSignals.tla", "V_C12")
+    # the last two owners dropped simultaneously on two real threads (std's Arc is invisible to the scheduler)
+    out2 = os.path.join(WORK, "probe_C12_dropstress.ndjson")
+    a2 = ["--iterations", 20000 if tier == "thorough" else 4000]
+    recs2 = run_probe("dropstress", a2, out2)
+    for r2 in recs2:
+        chk.evaluations += r2["r"].get("iterations", 0)
+    found = validate_records(chk, "TraceSignals.tla", out2, "V_C12", "dropstress")
+    report(chk, found, "dropstress", a2)
     import p_iterator
     p_iterator.run_iterator(chk, tier)
 
